@@ -14,9 +14,21 @@ Vocabulary used below
   response, `s'` = state after the chain executed them. `order` is the (checked) witness for the order in which
   `query_all_balances` lists the contract's coins; every theorem holds for every order.
 * `selected denoms d` — `d` is in the explicit list, or there is no list.
-* "the contract is not a paid member": `∀ m ∈ members, 0 < m.2 → m.1 ≠ s.self`. It is needed only for the
-  statements about *balances after* the call: a contract that is a weighted member of its own group pays itself,
-  which is a transfer from and to the same account. The message-level statements need no such hypothesis.
+* "the contract is not a paid member" (`hself`): `∀ m ∈ members, 0 < m.2 → m.1 ≠ s.self`. The property text is
+  unconditional, but on the code as it is a group admin CAN add the splits contract to its own group with a
+  weight; the contract then "pays itself" (a transfer from and to the same account), keeps
+  `w_self·floor(B/T) + B mod T ≥ T`, and — if it sorts before the other members — a denom listed twice is paid twice.
+  So the balance-level clauses "remainder < total weight" and "each member gets exactly weight × floor(B/T)" are
+  FALSE without `hself` (`C15_remainder_self_member_counterexample`, `C15_exact_amount_self_first_counterexample`,
+  replays `corpus/C15/*.json`). The theorems that need `hself` (or "no denom listed twice") are therefore named
+  `…_partial`, with the full clause quoted above them; the statements WITHOUT any side condition are
+  `C15_msgs_exact` (messages) and `C15_amounts_general` (balances, with the number of occurrences of a denom).
+* `occ denoms d` — how often the call selects denom `d` (1 without a list, else its multiplicity in the list).
+
+What is a mechanism theorem and what is not: `C15_refused_unchanged`, `C15_distribute_conserves`, `C15_raw_refused`,
+`C15_migrate_noop` restate how `step'` / the model's bank are DEFINED (a failed transaction changes nothing, the bank
+only moves coins, the model has no other message); on the real code those clauses are carried by the harness
+monitors (`failed-but-changed`, `supply`, `frame-*`, `outflow`), not by these theorems.
 -/
 namespace LP
 open LP.Splits
@@ -68,10 +80,33 @@ theorem C15_zero_weight_no_msg {s : State} (hwf : SWF s) {sender : Addr} {denoms
   rw [hpa, h1] at h2
   simp at h2; omega
 
-/-- **Exact amounts** (balances): after an accepted distribution every account other than the contract holds what it
+/-- **Exact amounts, no side condition** (the contract may be a member of its own group, a denom may be listed several
+times): after an accepted distribution every account other than the contract holds what it held when the call
+arrived plus `weight × occurrences × floor(balance / total_weight)` of every denom, and the contract has lost exactly
+what the others gained, `(total_weight − own weight) × occurrences × floor(balance / total_weight)` — in particular
+never more than it held, nobody else loses anything, and zero-weight members and strangers gain nothing. -/
+theorem C15_amounts_general {s s' : State} (hwf : SWF s)
+    {sender : Addr} {funds : List Coin} {denoms : Option (List Denom)} {order : List Denom} {msgs : List Pay}
+    (h : distribute s sender funds denoms order = .ok (s', msgs)) :
+    ∃ b1, attachFunds s.bank sender s.self funds = some b1 ∧
+      (∀ a d, a ≠ s.self → bal s'.bank a d = bal b1 a d +
+        (lookupM s.group.members a).getD 0 * (occ denoms d * (bal b1 s.self d / s.group.total))) ∧
+      (∀ d, bal s'.bank s.self d + (s.group.total - (lookupM s.group.members s.self).getD 0) *
+        (occ denoms d * (bal b1 s.self d / s.group.total)) = bal b1 s.self d) ∧
+      (∀ d, bal s'.bank s.self d ≤ bal b1 s.self d) := by
+  obtain ⟨b1, hb1, hm, he, _⟩ := distribute_ok h
+  obtain ⟨g1, g2⟩ := distribute_general (s := { s with bank := b1 }) hwf hm he
+  exact ⟨b1, hb1, g1, g2, fun d => by have := g2 d; simp only [] at this; omega⟩
+
+/-- FULL CLAUSE (false for the code as it is, see `C15_exact_amount_self_first_counterexample`): "a distribution pays each
+group member weight × floor(balance / total_weight) of every distributed denom" — for every accepted call.
+PROVED (partial): the clause when the contract is not a paid member of its own group. What is missing: the contract
+rejecting (or cw4-group never containing) its own address, or `denom_list` being de-duplicated.
+
+**Exact amounts** (balances): after an accepted distribution every account other than the contract holds what it
 held when the call arrived plus `weight × floor(balance / total_weight)` of every selected denom, where `weight` is
 its weight in the group — 0 for zero-weight members and for non-members, so those receive nothing. -/
-theorem C15_amounts {s s' : State} (hwf : SWF s) (hself : ∀ m ∈ s.group.members, 0 < m.2 → m.1 ≠ s.self)
+theorem C15_amounts_partial {s s' : State} (hwf : SWF s) (hself : ∀ m ∈ s.group.members, 0 < m.2 → m.1 ≠ s.self)
     {sender : Addr} {funds : List Coin} {denoms : Option (List Denom)} {order : List Denom} {msgs : List Pay}
     (h : distribute s sender funds denoms order = .ok (s', msgs)) :
     ∃ b1, attachFunds s.bank sender s.self funds = some b1 ∧
@@ -81,24 +116,24 @@ theorem C15_amounts {s s' : State} (hwf : SWF s) (hself : ∀ m ∈ s.group.memb
   exact ⟨b1, hb1, (distribute_exact (s := { s with bank := b1 }) hwf hself hm he).2⟩
 
 /-- each member `(a, w)` of the group receives exactly `w × floor(balance / total_weight)` of every selected denom -/
-theorem C15_member_paid {s s' : State} (hwf : SWF s) (hself : ∀ m ∈ s.group.members, 0 < m.2 → m.1 ≠ s.self)
+theorem C15_member_paid_partial {s s' : State} (hwf : SWF s) (hself : ∀ m ∈ s.group.members, 0 < m.2 → m.1 ≠ s.self)
     {sender : Addr} {funds : List Coin} {denoms : Option (List Denom)} {order : List Denom} {msgs : List Pay}
     (h : distribute s sender funds denoms order = .ok (s', msgs)) :
     ∃ b1, attachFunds s.bank sender s.self funds = some b1 ∧
       ∀ a w, (a, w) ∈ s.group.members → a ≠ s.self → ∀ d,
         bal s'.bank a d = bal b1 a d + (if selected denoms d then w * (bal b1 s.self d / s.group.total) else 0) := by
-  obtain ⟨b1, hb1, hall⟩ := C15_amounts hwf hself h
+  obtain ⟨b1, hb1, hall⟩ := C15_amounts_partial hwf hself h
   refine ⟨b1, hb1, fun a w haw ha d => ?_⟩
   rw [hall a d ha, mem_lookupM hwf.1 haw]; rfl
 
-/-- zero-weight members and non-members keep exactly what they had -/
+/-- zero-weight members and non-members keep exactly what they had — no side condition (also when the contract is
+its own member, also with a denom listed twice) -/
 theorem C15_zero_weight_and_strangers_unpaid {s s' : State} (hwf : SWF s)
-    (hself : ∀ m ∈ s.group.members, 0 < m.2 → m.1 ≠ s.self)
     {sender : Addr} {funds : List Coin} {denoms : Option (List Denom)} {order : List Denom} {msgs : List Pay}
     (h : distribute s sender funds denoms order = .ok (s', msgs)) :
     ∃ b1, attachFunds s.bank sender s.self funds = some b1 ∧
       ∀ a, a ≠ s.self → ((a, 0) ∈ s.group.members ∨ ∀ w, (a, w) ∉ s.group.members) → ∀ d, bal s'.bank a d = bal b1 a d := by
-  obtain ⟨b1, hb1, hall⟩ := C15_amounts hwf hself h
+  obtain ⟨b1, hb1, hall, _⟩ := C15_amounts_general hwf h
   refine ⟨b1, hb1, fun a ha hcase d => ?_⟩
   rw [hall a d ha]
   rcases hcase with h0 | hno
@@ -117,10 +152,16 @@ theorem C15_bound_arith (B T : Nat) (hT : 0 < T) :
     T * (B / T) ≤ B ∧ B - T * (B / T) = B % T ∧ B % T < T :=
   ⟨Nat.mul_div_le B T, (Nat.mod_def B T).symm, Nat.mod_lt B hT⟩
 
-/-- **Remainder**: after an accepted distribution the contract keeps, of every selected denom, exactly
+/-- FULL CLAUSE (false for the code as it is, see `C15_remainder_self_member_counterexample`): "the undistributed remainder
+of each denom is smaller than the total weight" — after every accepted call.
+PROVED (partial): the clause when the contract is not a paid member of its own group. Without that the contract keeps
+`own weight × floor(B/T) + B mod T` (`C15_amounts_general`), and "the total paid never exceeds the balance" still
+holds in the form "the contract never ends with more, nor anybody else with less" (`C15_amounts_general`, last two parts).
+
+**Remainder**: after an accepted distribution the contract keeps, of every selected denom, exactly
 `balance mod total_weight` (< total weight); unselected denoms are untouched; the total paid of a denom is
 `total_weight × floor(balance / total_weight) ≤ balance`. -/
-theorem C15_remainder {s s' : State} (hwf : SWF s) (hself : ∀ m ∈ s.group.members, 0 < m.2 → m.1 ≠ s.self)
+theorem C15_remainder_partial {s s' : State} (hwf : SWF s) (hself : ∀ m ∈ s.group.members, 0 < m.2 → m.1 ≠ s.self)
     {sender : Addr} {funds : List Coin} {denoms : Option (List Denom)} {order : List Denom} {msgs : List Pay}
     (h : distribute s sender funds denoms order = .ok (s', msgs)) :
     ∃ b1, attachFunds s.bank sender s.self funds = some b1 ∧ 0 < s.group.total ∧
@@ -256,10 +297,14 @@ theorem C15_refused_uncovered_funds {s : State} (sender : Addr) (funds : List Co
   apply C15_refused_of_msgs
   intro b1 hb1; rw [h] at hb1; simp at hb1
 
-/-- **Conversely it is accepted** (no funds attached): entitled caller, total weight > 0, 1..25 members, some selected
+/-- FULL CLAUSE: the refusal conditions of the property text are the ONLY ones. False as it stands: a denom listed twice
+is refused by the bank (`C15_duplicate_denom_refused`), and with the contract as a paid member the outcome depends on
+the payment order. PROVED (partial), under these two side conditions:
+
+**Conversely it is accepted** (no funds attached): entitled caller, total weight > 0, 1..25 members, some selected
 denom with balance ≥ total weight, the contract not a paid member of its own group and no denom listed twice. So the
 refusal conditions above are, up to these two side conditions, the only ones. -/
-theorem C15_accepted {s : State} (hwf : SWF s) (hself : ∀ m ∈ s.group.members, 0 < m.2 → m.1 ≠ s.self)
+theorem C15_accepted_partial {s : State} (hwf : SWF s) (hself : ∀ m ∈ s.group.members, 0 < m.2 → m.1 ≠ s.self)
     {sender : Addr} {denoms : Option (List Denom)} {order : List Denom}
     (hc : canDistribute s.admin s.group sender = true) (hT : s.group.total ≠ 0)
     (hlen : s.group.members.length ≤ 25)
@@ -290,10 +335,15 @@ theorem C15_init_wf {mode : Mode} {self gaddr : Addr} {admin gadmin : Option Add
 theorem C15_history_wf {s : State} (h : SWF s) (ops : List Op) : SWF (run s ops) :=
   run_wf ops h
 
-/-- **Exactness after any history**: whatever happened before, an accepted distribution pays every account
+/-- FULL CLAUSE: "repeated distributions after further deposits or group changes keep the same exactness" — for every
+history. PROVED (partial): in every reachable state in which the contract is not a paid member of its own group
+(a history CAN reach the others: `UpdateMembers` adding the contract's address). The side-condition-free version
+is `C15_history_amounts_general`.
+
+**Exactness after any history**: whatever happened before, an accepted distribution pays every account
 `weight × floor(balance / total_weight)` of each selected denom (weights as they are NOW) and the contract keeps
 `balance mod total_weight`. -/
-theorem C15_history_exact {s0 : State} (h0 : SWF s0) (ops : List Op)
+theorem C15_history_exact_partial {s0 : State} (h0 : SWF s0) (ops : List Op)
     {sender : Addr} {funds : List Coin} {denoms : Option (List Denom)} {order : List Denom} {s' : State} {msgs : List Pay}
     (hself : ∀ m ∈ (run s0 ops).group.members, 0 < m.2 → m.1 ≠ s0.self)
     (h : distribute (run s0 ops) sender funds denoms order = .ok (s', msgs)) :
@@ -307,8 +357,8 @@ theorem C15_history_exact {s0 : State} (h0 : SWF s0) (ops : List Op)
   have hwf : SWF s := run_wf ops h0
   have hself' : ∀ m ∈ s.group.members, 0 < m.2 → m.1 ≠ s.self := by
     intro m hm hp; rw [show s.self = s0.self from run_self s0 ops]; exact hself m hm hp
-  obtain ⟨b1, hb1, hall⟩ := C15_amounts hwf hself' h
-  obtain ⟨b1', hb1', _, hsel, hnsel⟩ := C15_remainder hwf hself' h
+  obtain ⟨b1, hb1, hall⟩ := C15_amounts_partial hwf hself' h
+  obtain ⟨b1', hb1', _, hsel, hnsel⟩ := C15_remainder_partial hwf hself' h
   rw [hb1] at hb1'; simp at hb1'; subst hb1'
   exact ⟨b1, hb1, hall, fun d hd => ⟨(hsel d hd).1, (hsel d hd).2.1⟩, fun d hd => (hnsel d hd).1⟩
 
@@ -325,9 +375,11 @@ theorem C15_distribute_conserves (s : State) (sender : Addr) (funds : List Coin)
     supply (step' s (.distribute sender funds denoms order)).bank d = supply s.bank d := by
   rw [supply_step']; rfl
 
-/-- and in every reachable state the contract's payments are covered: an accepted distribution after any history
+/-- (partial: `hself`; the message total includes what the contract addresses to itself, which is why the side
+condition is needed — the net version without it is `C15_history_amounts_general`)
+and in every reachable state the contract's payments are covered: an accepted distribution after any history
 takes out of the contract exactly what it sends, denom by denom, never more than it holds -/
-theorem C15_history_no_overdraft {s0 : State} (h0 : SWF s0) (ops : List Op)
+theorem C15_history_no_overdraft_partial {s0 : State} (h0 : SWF s0) (ops : List Op)
     {sender : Addr} {funds : List Coin} {denoms : Option (List Denom)} {order : List Denom} {s' : State} {msgs : List Pay}
     (hself : ∀ m ∈ (run s0 ops).group.members, 0 < m.2 → m.1 ≠ s0.self)
     (h : distribute (run s0 ops) sender funds denoms order = .ok (s', msgs)) :
@@ -356,7 +408,7 @@ theorem C15_duplicate_denom_refused {s : State} (hwf : SWF s) (hself : ∀ m ∈
   simp [attachFunds] at hb1; subst hb1
   rw [show ({ s with bank := s.bank } : State) = s from rfl] at hm
   have hT : 0 < s.group.total := Nat.pos_of_ne_zero (distributeMsgs_ok hm).2.1
-  obtain ⟨b1', hb1', _, hsel, _⟩ := C15_remainder hwf hself hok
+  obtain ⟨b1', hb1', _, hsel, _⟩ := C15_remainder_partial hwf hself hok
   simp [attachFunds] at hb1'; subst hb1'
   have hd : selected (some l) d := by
     show d ∈ l
@@ -377,6 +429,102 @@ theorem C15_duplicate_denom_refused {s : State} (hwf : SWF s) (hself : ∀ m ∈
     Nat.mul_le_mul_right _ hdup
   omega
 
+/-! ## the side-condition-free history statements, and "nothing but a distribution takes coins out of the contract" -/
+
+/-- **Exactness after any history, no side condition**: in every reachable state an accepted distribution gives every
+other account `weight × occurrences × floor(balance / total_weight)` (weights as they are NOW), takes exactly that
+out of the contract, and never leaves the contract with more than it held. -/
+theorem C15_history_amounts_general {s0 : State} (h0 : SWF s0) (ops : List Op)
+    {sender : Addr} {funds : List Coin} {denoms : Option (List Denom)} {order : List Denom} {s' : State} {msgs : List Pay}
+    (h : distribute (run s0 ops) sender funds denoms order = .ok (s', msgs)) :
+    let s := run s0 ops
+    ∃ b1, attachFunds s.bank sender s.self funds = some b1 ∧
+      (∀ a d, a ≠ s.self → bal s'.bank a d = bal b1 a d +
+        (lookupM s.group.members a).getD 0 * (occ denoms d * (bal b1 s.self d / s.group.total))) ∧
+      (∀ d, bal s'.bank s.self d + (s.group.total - (lookupM s.group.members s.self).getD 0) *
+        (occ denoms d * (bal b1 s.self d / s.group.total)) = bal b1 s.self d) ∧
+      (∀ d, bal s'.bank s.self d ≤ bal b1 s.self d) :=
+  C15_amounts_general (run_wf ops h0) h
+
+/-- operations that can take coins out of the splits contract: a `Distribute`, and a bank transfer signed by the
+contract's own address (which no transaction can carry: a contract has no key) -/
+def paysOut (self : Addr) : Op → Bool
+  | .distribute _ _ _ _ => true
+  | .send src _ _ => src == self
+  | _ => false
+
+/-- group changes, admin changes (both contracts), any other execute message, and `migrate` do not touch ANY balance -/
+theorem C15_bank_frame_other_ops (s : State) (op : Op)
+    (h : match op with
+         | .updateMembers _ _ _ | .groupAdmin _ _ | .splitsAdmin _ _ | .raw _ _ | .migrate _ => True
+         | _ => False) :
+    (step' s op).bank = s.bank := by
+  cases op with
+  | mint _ _ => exact absurd h (by simp)
+  | send _ _ _ => exact absurd h (by simp)
+  | distribute _ _ _ _ => exact absurd h (by simp)
+  | updateMembers sender add remove => unfold step'; simp only [step]; cases s.group.updateMembers sender add remove <;> rfl
+  | groupAdmin sender new => unfold step'; simp only [step]; cases updateAdminOf s.group.admin sender new <;> rfl
+  | splitsAdmin sender new => unfold step'; simp only [step]; cases updateAdminOf s.admin sender new <;> rfl
+  | raw sender funds => rfl
+  | migrate sender => rfl
+
+/-- **"never loses coins", mechanism level**: one transaction that is neither a `Distribute` nor a transfer signed by the
+contract never lowers any balance of the contract -/
+theorem C15_only_distribute_pays_out (s : State) (op : Op) (d : Denom) (h : paysOut s.self op = false) :
+    bal s.bank s.self d ≤ bal (step' s op).bank s.self d := by
+  unfold step'
+  split
+  · next s' hs =>
+    cases op with
+    | mint to coins =>
+      simp only [step] at hs; split at hs
+      · simp at hs
+      · next b hb => simp at hs; subst hs; exact mintCoins_ge hb _ _
+    | send src dst coins =>
+      simp only [step] at hs; split at hs
+      · simp at hs
+      · next b hb =>
+        simp at hs; subst hs
+        have hne : s.self ≠ src := by
+          intro he; simp [paysOut, he] at h
+        exact sendCoins_other_ge hb _ _ hne
+    | updateMembers sender add remove =>
+      simp only [step] at hs; split at hs
+      · simp at hs
+      · simp at hs; subst hs; exact Nat.le_refl _
+    | groupAdmin sender new =>
+      simp only [step] at hs; split at hs
+      · simp at hs
+      · simp at hs; subst hs; exact Nat.le_refl _
+    | splitsAdmin sender new =>
+      simp only [step] at hs; split at hs
+      · simp at hs
+      · simp at hs; subst hs; exact Nat.le_refl _
+    | distribute sender funds denoms order => simp [paysOut] at h
+    | raw sender funds => simp [step] at hs
+    | migrate sender => simp [step] at hs; subst hs; exact Nat.le_refl _
+  · exact Nat.le_refl _
+
+/-- … and over every history without such operations the contract's balance of every denom only grows -/
+theorem C15_history_only_distribute_pays_out (s : State) (ops : List Op) (d : Denom)
+    (h : ∀ op ∈ ops, paysOut s.self op = false) :
+    bal s.bank s.self d ≤ bal (run s ops).bank s.self d := by
+  induction ops generalizing s with
+  | nil => exact Nat.le_refl _
+  | cons op ops ih =>
+    have h1 := C15_only_distribute_pays_out s op d (h op (by simp))
+    have h2 := ih (step' s op) (by
+      intro o ho; rw [step'_self]; exact h o (by simp [ho]))
+    rw [step'_self] at h2
+    exact Nat.le_trans h1 h2
+
+/-- (definitional, see the header) an execute message other than `UpdateAdmin` / `Distribute` is refused, whoever sends
+it and whatever is attached; (definitional) `migrate` changes nothing the model has -/
+theorem C15_raw_refused (s : State) (sender : Addr) (funds : List Coin) : step' s (.raw sender funds) = s := rfl
+
+theorem C15_migrate_noop (s : State) (sender : Addr) : step' s (.migrate sender) = s := rfl
+
 /-! ## non-vacuity and the documented corner -/
 
 /-- three members (weights 1, 2, 0), no admin, 100 of denom 0 and 5 of denom 1 -/
@@ -392,9 +540,9 @@ example :
      | .error _ => ([], 0, 0, 0, 0, 0)) =
     ([⟨10, 0, 33⟩, ⟨10, 1, 1⟩, ⟨11, 0, 66⟩, ⟨11, 1, 2⟩], 33, 66, 0, 1, 2) := by decide
 
-/-- hypotheses of `C15_accepted` are satisfiable -/
+/-- hypotheses of `C15_accepted_partial` are satisfiable -/
 example : ∃ s' msgs, distribute exC15 12 [] (some [0]) [] = .ok (s', msgs) :=
-  C15_accepted (s := exC15) ⟨by unfold Sorted; decide, by decide⟩ (by decide) (by decide) (by decide) (by decide)
+  C15_accepted_partial (s := exC15) ⟨by unfold Sorted; decide, by decide⟩ (by decide) (by decide) (by decide) (by decide)
     (by intro h; cases h) (by intro l h; cases h; decide) ⟨0, by decide, by decide⟩
 
 /-- a stranger is refused and nothing changes -/
@@ -403,15 +551,56 @@ example : step' exC15 (.distribute 7 [] none [0, 1]) = exC15 :=
     show ∀ w, (7, w) ∉ exC15.group.members
     intro w hw; simp [exC15] at hw))
 
-/-- Why `hself` is there: a contract that is a weighted member of its own group and is paid BEFORE the others (address
-order) can be called with a denom listed twice; its payments to itself are no-ops, so the duplicate is not stopped by
-the bank and member 10 (weight 1 of 10) receives 2 × 10 instead of 10. Nobody loses coins (supply is conserved, the
-surplus comes out of the contract's own share, which only ever flows to the other members). With `hself`, or with the
-contract paid last, the duplicate is always refused by the bank. -/
-example :
-    let s : State := ⟨5, 1000, some 1, ⟨none, [(5, 9), (10, 1)], 10⟩, [((5, 0), 100)]⟩
-    (match distribute s 1 [] (some [0, 0]) [] with
-     | .ok (s', _) => (bal s'.bank 10 0, bal s'.bank 5 0)
-     | .error _ => (0, 0)) = (20, 80) := by decide
+/-! ## the two literal clauses the unchanged code does NOT satisfy (replayed on the real contracts: `corpus/C15/`) -/
+
+/-- the group of `corpus/C15/self-member-remainder.json`: member 10 (weight 1) and the splits contract itself (1001,
+weight 9); admin 5; the contract holds 100 of denom 0 -/
+def exSelfMember : State := ⟨1001, 1000, some 5, ⟨some 6, [(10, 1), (1001, 9)], 10⟩, [((1001, 0), 100)]⟩
+
+/-- **"the undistributed remainder of each denom is smaller than the total weight" is FALSE for the code as it is**: the
+group admin made the splits contract a weighted member of its own group (cw4-group accepts any address); after an
+accepted distribution of 100 with total weight 10 the contract still holds 90 ≥ 10 (its "own share" 9 × 10 never
+leaves). The same call can be repeated for ever: 90 → 81 → … -/
+theorem C15_remainder_self_member_counterexample :
+    ¬ ∀ (s s' : State) (sender : Addr) (funds : List Coin) (denoms : Option (List Denom)) (order : List Denom)
+        (msgs : List Pay), SWF s → distribute s sender funds denoms order = .ok (s', msgs) →
+        ∀ d, selected denoms d → bal s'.bank s.self d < s.group.total := by
+  intro h
+  have hwf : SWF exSelfMember := ⟨by unfold Sorted; decide, by decide⟩
+  have hd : distribute exSelfMember 5 [] none [0] =
+      .ok (⟨1001, 1000, some 5, ⟨some 6, [(10, 1), (1001, 9)], 10⟩, [((1001, 0), 90), ((10, 0), 10)]⟩,
+           [⟨10, 0, 10⟩, ⟨1001, 0, 90⟩]) := by rfl
+  have := h _ _ _ _ _ _ _ hwf hd 0 trivial
+  revert this; decide
+
+/-- the group of `corpus/C15/self-member-first-double-pay.json` (`Cw4Instantiate`: splits = contract0 = 1000 sorts before
+the group contract 1001, which is the other member) -/
+def exSelfFirst : State := ⟨1000, 1001, some 5, ⟨some 6, [(1000, 9), (1001, 1)], 10⟩, [((1000, 0), 100)]⟩
+
+/-- **"pays each group member weight × floor(balance / total_weight) of every distributed denom" is FALSE for the code as
+it is**: the contract is a weighted member of its own group and is paid BEFORE the others (address order); with the
+denom listed twice its payments to itself are no-ops, so the bank does not stop the duplicate and member 1001
+(weight 1 of 10, balance 100) receives 2 × 10 instead of 10. Nobody outside the group loses coins (supply is conserved,
+the surplus comes out of the contract's own share). With `hself`, or with the contract paid last, the duplicate is
+always refused by the bank (`C15_duplicate_denom_refused`). -/
+theorem C15_exact_amount_self_first_counterexample :
+    ¬ ∀ (s s' : State) (sender : Addr) (funds : List Coin) (denoms : Option (List Denom)) (order : List Denom)
+        (msgs : List Pay), SWF s → distribute s sender funds denoms order = .ok (s', msgs) →
+        ∀ a w, (a, w) ∈ s.group.members → a ≠ s.self → ∀ d, selected denoms d →
+          bal s'.bank a d = bal s.bank a d + w * (bal s.bank s.self d / s.group.total) := by
+  intro h
+  have hwf : SWF exSelfFirst := ⟨by unfold Sorted; decide, by decide⟩
+  have hd : distribute exSelfFirst 5 [] (some [0, 0]) [] =
+      .ok (⟨1000, 1001, some 5, ⟨some 6, [(1000, 9), (1001, 1)], 10⟩, [((1000, 0), 80), ((1001, 0), 20)]⟩,
+           [⟨1000, 0, 90⟩, ⟨1000, 0, 90⟩, ⟨1001, 0, 10⟩, ⟨1001, 0, 10⟩]) := by rfl
+  have := h _ _ _ _ _ _ _ hwf hd 1001 1 (by decide) (by decide) 0 (by decide)
+  revert this; decide
+
+/-- what `C15_amounts_general` says about the second counter-example: 1 × 2 occurrences × floor(100/10) = 20 -/
+example : occ (some [0, 0]) 0 = 2 ∧ (lookupM exSelfFirst.group.members 1001).getD 0 * (occ (some [0, 0]) 0 * (100 / 10)) = 20 := by decide
+
+/-- hypotheses of the frame theorems are satisfiable: an `UpdateMembers` by the group admin, a raw message, a migrate -/
+example : paysOut exC15.self (.updateMembers 6 [(13, 5)] []) = false ∧ paysOut exC15.self (.raw 7 [⟨0, 5⟩]) = false ∧
+    (step' exC15 (.updateMembers 6 [(13, 5)] [])).group.total = 8 := by decide
 
 end LP
